@@ -288,6 +288,15 @@ def concrete_run(gx, method, nt_name, root, follow, args, kwargs, depth=1) -> Di
         return out
     finally:
         gx.keep_any_inside = False
+    regs: List[Tuple[str, bool]] = []
+    for nm, kind in (("_add_identifier", False), ("_add_typedef_name", True)):
+        real = getattr(gx.CParser, nm)
+
+        def reg(name, coord, real=real, kind=kind, p=p):
+            regs.append((name, kind))
+            return real(p, name, coord)
+        setattr(p, nm, reg)
+    out["registrations"] = regs
     try:
         res = getattr(p, method)(*args, **(kwargs or {}))
     except gx.ParseError as e:
@@ -300,6 +309,7 @@ def concrete_run(gx, method, nt_name, root, follow, args, kwargs, depth=1) -> Di
     if end != n_form:
         out.update(kind="consumption", detail=f"consumed {end} of {n_form} tokens")
         return out
+    out["result"] = res
     remap_coords(gx, res, pos)
     allowed = {("f.c", i + 1, i + 1) for i in range(n_form)}
     for c in _coords_of(gx, list(args) + list((kwargs or {}).values())):
@@ -388,7 +398,17 @@ def run_data(gx, data, limit=8) -> Dict[str, Any]:
         args, kwargs = fac(gx, p) if fac else ((), {})
         out = concrete_run(gx, method, nt_name, root, data["follow"], args, kwargs, data.get("depth", 1))
         out["method"] = method
-        if out["kind"] in ("diff", "exception"):
+        if data.get("family") == "scope" and out["kind"] in ("agree", "diff"):
+            class _OC:
+                result = out.get("result")
+            want = GO.expected_registrations(gx, method, _OC, list(data["follow"]))
+            got = list(out.get("registrations") or [])
+            # names of the typedef tokens pre-registered for the run are not registrations of the method
+            if sorted(got) != sorted(want):
+                out = dict(out, kind="scope-diff", detail=f"the real method (real callees) registered {got}; C scoping requires {want}")
+                return out
+            out = dict(out, kind="agree")
+        if out["kind"] in ("diff", "exception", "scope-diff"):
             return out
         if out["kind"] == "agree" and agreed is None:
             agreed = out
@@ -409,7 +429,7 @@ def main(data_json: str) -> int:
     print("method under test (real code, real callees, real lexer):", out.get("method"))
     print("input text:", repr(out.get("text")))
     print("outcome:", out["kind"], out.get("detail", ""))
-    if out["kind"] in ("diff", "parse-error", "exception", "consumption"):
+    if out["kind"] in ("diff", "parse-error", "exception", "consumption", "scope-diff"):
         print("REPRODUCED")
         return 1
     print("NOT-REPRODUCED")
